@@ -194,7 +194,14 @@ func run(c Case) (pbt.Outcome, error) {
 			return out, fmt.Errorf("harness: %v", err)
 		}
 		defer osink.Close()
-		other, err := m3.NewReporter(m3.Options{HostPorts: []string{osink.Addr}, Service: "other", Env: "test", Protocol: proto})
+		oproto := proto
+		if c.OtherMS%2 == 1 { // the other reporter speaks the other wire protocol
+			oproto = m3.Compact
+			if !c.Binary {
+				oproto = m3.Binary
+			}
+		}
+		other, err := m3.NewReporter(m3.Options{HostPorts: []string{osink.Addr}, Service: "other", Env: "test", Protocol: oproto})
 		if err != nil {
 			return out, fmt.Errorf("harness: NewReporter (other): %v", err)
 		}
